@@ -322,6 +322,10 @@ def run(chk):
             forwards = any(pf.is_carrier(fn, a, tv) for c in walk(loop.get("body")) if callee(c) for a in call_args(c))
             if not forwards:
                 continue
+            # a grow-until loop: its own condition compares the size of the proposed refinement with the requested growth
+            ctext = txt(loop.get("cond") or {})
+            if not any(w in ctext for w in ("getNumNeeded", "min_growth", "needed.getNumIndexes")):
+                continue
             nloops += 1
             conds = [loop.get("cond")]
             for x in walk(loop.get("body")):
